@@ -12,7 +12,8 @@ PROP = Prop(
          "random bytes; thorough adds every byte string of length <=2 and length 4 over 10 edge bytes. Serde: groups of 1..7 registrations over 8 Go types "
          "(consistent 72%, same id with and without index 15%, ids outside uint32 6%, missing encode/decode functions 7%; re-registrations), then Encode+Decode+DecodeNew "
          "round trips, prefixed AppendEncode, and Decode of valid/unregistered/prefix/extended/truncated/damaged/hostile/random bytes. "
-         "Every stateless op is preceded by `reset` (a replay is the op alone). Non-trivial = every op except `reset`, a `reg` without index that overrides nothing, "
+         "Every stateless op is preceded by `reset` (a replay is the op alone). The ops run in a child process with RLIMIT_AS=4GiB: an op that kills it "
+         "(fatal error: out of memory) is outcome `panic`, an op over its 2 s deadline is `hang` (judged like a panic when the count read from the input exceeds 2^20). Non-trivial = every op except `reset`, a `reg` without index that overrides nothing, "
          "and decodes of the empty string. distinct = distinct op lines.",
     trusted_base=["hand-written Lean model of pkg/sr/serde.go (ConfluentHeader, Serde registry) and of encoding/binary's varint functions, tied by differential runs "
                   "through the public API (harness/cmd/c36 vs Driver/C36.lean)",
